@@ -29,6 +29,81 @@ func WildMatch(pat, s string) bool {
 	return p == len(pat)
 }
 
+// GlobMatch matches s against a pattern in the subset of the glob language the
+// generators use: '*' any sequence, '?' any single character, '[abc]' / '[a-c]' one
+// character of a class, '{x,y}' one of several literal alternatives. ok is false
+// when the pattern is not well formed (unbalanced bracket or brace): such a
+// pattern matches nothing.
+func GlobMatch(pat, s string) (match, ok bool) {
+	if !globWellFormed(pat) {
+		return false, false
+	}
+	return globRec(pat, s), true
+}
+
+func globWellFormed(pat string) bool {
+	for i := 0; i < len(pat); i++ {
+		switch pat[i] {
+		case '[':
+			j := strings.IndexByte(pat[i:], ']')
+			if j < 2 {
+				return false
+			}
+			i += j
+		case '{':
+			j := strings.IndexByte(pat[i:], '}')
+			if j < 0 || strings.ContainsAny(pat[i+1:i+j], "{[*?") {
+				return false
+			}
+			i += j
+		case ']', '}':
+			return false
+		}
+	}
+	return true
+}
+
+func globRec(pat, s string) bool {
+	if pat == "" {
+		return s == ""
+	}
+	switch pat[0] {
+	case '*':
+		for k := 0; k <= len(s); k++ {
+			if globRec(pat[1:], s[k:]) {
+				return true
+			}
+		}
+		return false
+	case '?':
+		return s != "" && globRec(pat[1:], s[1:])
+	case '[':
+		j := strings.IndexByte(pat, ']')
+		if s == "" {
+			return false
+		}
+		cls, in := pat[1:j], false
+		for k := 0; k < len(cls); k++ {
+			if k+2 < len(cls) && cls[k+1] == '-' {
+				in = in || (cls[k] <= s[0] && s[0] <= cls[k+2])
+				k += 2
+			} else {
+				in = in || cls[k] == s[0]
+			}
+		}
+		return in && globRec(pat[j+1:], s[1:])
+	case '{':
+		j := strings.IndexByte(pat, '}')
+		for _, alt := range strings.Split(pat[1:j], ",") {
+			if strings.HasPrefix(s, alt) && globRec(pat[j+1:], s[len(alt):]) {
+				return true
+			}
+		}
+		return false
+	}
+	return s != "" && s[0] == pat[0] && globRec(pat[1:], s[1:])
+}
+
 // NormHost is the request host as routing sees it: lower case, default port removed.
 func NormHost(host string, tls bool) string {
 	h := strings.ToLower(host)
@@ -59,26 +134,37 @@ func pathMatches(matcher, uri, rpath string) bool {
 	case "iprefix":
 		return strings.HasPrefix(strings.ToLower(uri), strings.ToLower(rpath))
 	case "glob":
-		return WildMatch(rpath, uri)
+		m, _ := GlobMatch(rpath, uri)
+		return m
 	}
 	return false
 }
 
-func hostMatches(cfg LookupCfg, pattern, normHost string) bool {
+// the route's host pattern is normalised like the request host (a default port is dropped)
+func hostMatches(cfg LookupCfg, pattern, normHost string, tls bool) bool {
+	pattern = NormHost(pattern, tls)
 	if cfg.GlobDisabled {
 		return pattern == normHost
 	}
-	return WildMatch(pattern, normHost)
+	m, _ := GlobMatch(pattern, normHost)
+	return m
 }
 
 // hostRank: exact host > wildcard host ordered by the length of the literal
-// suffix after the last '*'; host-less routes come last.
-func hostRank(cfg LookupCfg, pattern string) int {
+// suffix after the last '*'; host-less routes come last. Wildcards written with
+// '?', classes or alternatives are wildcards too; the statement does not rank them
+// against each other, so in their presence all wildcard candidates are tied
+// (classTie).
+func hostRank(cfg LookupCfg, pattern string, tls, classTie bool) int {
 	if pattern == "" {
 		return -1
 	}
-	if cfg.GlobDisabled || !strings.Contains(pattern, "*") {
+	pattern = NormHost(pattern, tls)
+	if cfg.GlobDisabled || !strings.ContainsAny(pattern, "*?[{") {
 		return 1 << 20
+	}
+	if classTie {
+		return 0
 	}
 	return len(pattern) - 1 - strings.LastIndex(pattern, "*")
 }
@@ -88,7 +174,7 @@ func hostRank(cfg LookupCfg, pattern string) int {
 func Select(cfg LookupCfg, routes []LRoute, host string, tls bool, uri string) (cands, winners []LRoute) {
 	nh := NormHost(host, tls)
 	for _, r := range routes {
-		if r.Host != "" && !hostMatches(cfg, r.Host, nh) {
+		if r.Host != "" && !hostMatches(cfg, r.Host, nh, tls) {
 			continue
 		}
 		if !pathMatches(cfg.Matcher, uri, r.Path) {
@@ -99,6 +185,11 @@ func Select(cfg LookupCfg, routes []LRoute, host string, tls bool, uri string) (
 	if len(cands) == 0 {
 		return nil, nil
 	}
+	classTie := false
+	for _, c := range cands {
+		classTie = classTie || (!cfg.GlobDisabled && strings.ContainsAny(c.Host, "?[{"))
+	}
+	hostRank := func(cfg LookupCfg, pattern string) int { return hostRank(cfg, pattern, tls, classTie) }
 	best := -2
 	for _, c := range cands {
 		if k := hostRank(cfg, c.Host); k > best {
